@@ -435,8 +435,33 @@ func usesPkgName(src, name string) bool {
 		return true
 	}
 	used := false
-	ast.Inspect(f, func(n ast.Node) bool {
+	var visit func(n ast.Node) bool
+	walk := func(n ast.Node) {
+		if n != nil {
+			ast.Inspect(n, visit)
+		}
+	}
+	visit = func(n ast.Node) bool {
 		switch n := n.(type) {
+		case *ast.Field:
+			// field and parameter NAMES are declarations, not uses
+			walk(n.Type)
+			return false
+		case *ast.KeyValueExpr:
+			if _, ok := n.Key.(*ast.Ident); !ok {
+				walk(n.Key)
+			}
+			walk(n.Value)
+			return false
+		case *ast.FuncDecl:
+			if n.Recv != nil {
+				walk(n.Recv)
+			}
+			walk(n.Type)
+			if n.Body != nil {
+				walk(n.Body)
+			}
+			return false
 		case *ast.SelectorExpr:
 			if id, ok := n.X.(*ast.Ident); ok && id.Name == name {
 				used = true
@@ -450,7 +475,8 @@ func usesPkgName(src, name string) bool {
 			}
 		}
 		return !used
-	})
+	}
+	ast.Inspect(f, visit)
 	return used
 }
 
